@@ -152,10 +152,17 @@ impl Arena {
 //@@fn file=unsync.rs scope="impl Allocator for Arena {" name=increase_discarded xlate=unsync st=mut props=C20,C09
 //@contract
   requires
+    !self.ro && old(st)@.writable, // [C09 C04]
     old(st)@.discarded + size as int <= u32::MAX as int, // [C20]
-    old(st)@.writable || size == 0, // [C09]
   ensures
     final(st)@ == (SV { discarded: old(st)@.discarded + size as int, ..old(st)@ }), // [C20]
+//@@end
+
+//@@fn file=unsync.rs scope="impl Allocator for Arena {" name=increase_discarded rename=increase_discarded__ro xlate=unsync st=mut props=C09
+//@subst /rt_panic\(\)/ => rt_panic_documented()
+//@contract
+  requires self.ro && !old(st)@.writable,
+  ensures false, // [C09]
 //@@end
 
 //@@fn file=unsync.rs scope="impl Allocator for Arena {" name=allocated xlate=unsync st=ref props=C15,C16
@@ -185,7 +192,7 @@ impl Arena {
     offset != 0 && size != 0 ==> offset as int + 8 <= u32::MAX as int, // [C04]
     offset != 0 && size != 0 ==> offset as int + size as int <= u32::MAX as int, // [C04]
     offset != 0 && size != 0 ==> old(st)@.discarded + (if seg_valid(old(st)@, offset as int, size as int) { 0 } else { size as int }) <= u32::MAX as int, // [C20]
-    old(st)@.writable || offset == 0 || size == 0, // [C09]
+    !self.ro && old(st)@.writable, // [C09]
   ensures
     r.is_some() == seg_valid(old(st)@, offset as int, size as int), // [C10 C20]
     r matches Some(seg) ==> final(st)@ == old(st)@ && seg_node(offset as int, size as int) == (seg.ptr_offset, seg.data_size)
@@ -286,7 +293,7 @@ impl Arena {
   requires
     wf(self.av(), old(st)@),
     self.freelist == Freelist::Pessimistic,
-    old(st)@.writable || offset == 0 || size == 0, // [C09]
+    !self.ro && old(st)@.writable, // [C09]
     extent_ok(self.av(), old(st)@, offset as int, size as int), // [C01 C10]
     old(st)@.discarded + (if seg_valid(old(st)@, offset as int, size as int) { 8 } else { size as int }) <= u32::MAX as int, // [C20]
   ensures
@@ -341,7 +348,7 @@ impl Arena {
   requires
     wf(self.av(), old(st)@),
     self.freelist == Freelist::Optimistic,
-    old(st)@.writable || offset == 0 || size == 0, // [C09]
+    !self.ro && old(st)@.writable, // [C09]
     extent_ok(self.av(), old(st)@, offset as int, size as int), // [C01 C10]
     old(st)@.discarded + (if seg_valid(old(st)@, offset as int, size as int) { 8 } else { size as int }) <= u32::MAX as int, // [C20]
   ensures
@@ -734,7 +741,7 @@ impl Arena {
 //@contract
   requires
     wf(self.av(), old(st)@),
-    old(st)@.writable || (offset == 0 && size == 0), // [C09]
+    !self.ro && old(st)@.writable, // [C09]
     extent_ok(self.av(), old(st)@, offset as int, size as int), // [C01 C13]
     old(st)@.discarded + size as int <= u32::MAX as int, // [C20]
   ensures
@@ -774,14 +781,22 @@ impl Arena {
 
 //@@fn file=unsync.rs scope="impl Allocator for Arena {" name=set_minimum_segment_size xlate=unsync st=mut props=C10,C09
 //@contract
-  requires old(st)@.writable, // [C09]
+  requires !self.ro && old(st)@.writable, // [C09]
   ensures final(st)@ == (SV { min_seg: size as int, ..old(st)@ }), // [C10 C11]
+//@@end
+
+//@@fn file=unsync.rs scope="impl Allocator for Arena {" name=set_minimum_segment_size rename=set_minimum_segment_size__ro xlate=unsync st=mut props=C09
+//@subst /rt_panic\(\)/ => rt_panic_documented()
+//@contract
+  requires self.ro && !old(st)@.writable,
+  ensures false, // [C09]
 //@@end
 
 //@@fn file=unsync.rs scope="impl Allocator for Arena {" name=rewind xlate=unsync st=mut props=C17
 //@contract
   requires
     geom(self.av(), old(st)@),
+    old(st)@.writable, // [C09]
   ensures
     final(st)@ == (SV { allocated: rewind_target(self.av(), old(st)@, pos), ..old(st)@ }), // [C17]
     self.data_offset as int <= final(st)@.allocated <= self.cap as int, // [C17]
